@@ -974,8 +974,10 @@ static Ival iv_poly(const Poly& p, int depth) {
   // first, so that  q*e - r*sqrt(c)*e  is enclosed as (q - r*sqrt(c))*e and not term by term
   std::map<Mono, Ival> groups;
   for (auto& kv : p) { Mono rest; Ival cf = iv_const(kv.second);
-    for (Var v : kv.first) { Poly one = p_var(v); if (E().vars[v].kind != V_FREE && E().vars[v].kind != V_UNINIT && p_is_const(one)) { mpf_class val(0, 512); if (!eval_var(v, val, 0)) return Ival{mpf_class(0, 256), mpf_class(0, 256), false};
-        Ival c{mpf_class(val, 256), mpf_class(val, 256), true}; widen(c); cf = iv_mul(cf, c); } else rest.push_back(v); }
+    for (Var v : kv.first) { Poly one = p_var(v); if (E().vars[v].kind != V_FREE && E().vars[v].kind != V_UNINIT && p_is_const(one)) { mpf_class val(0, 512);
+        if (eval_var(v, val, 0)) { Ival c{mpf_class(val, 256), mpf_class(val, 256), true}; widen(c); cf = iv_mul(cf, c); }
+        else rest.push_back(v); }            // e.g. an uninterpreted value of constant arguments: enclosed by its assumed range, like a symbol
+      else rest.push_back(v); }
     auto it = groups.find(rest); if (it == groups.end()) groups.emplace(rest, cf); else { it->second.lo += cf.lo; it->second.hi += cf.hi; widen(it->second); } }
   Ival s{mpf_class(0, 256), mpf_class(0, 256), true};
   for (auto& g : groups) { Ival t = g.second; const Mono& mo = g.first;
